@@ -10,6 +10,7 @@ from vf.hyp import drive, st
 from vf.runner import Collector
 
 ID = "C11"
+EARLY_ATTRIBUTION = True  # region predicates are cheap scans of the stored case
 LEVEL = "exploration"
 RULE = ("Index tuples of length <= rank over components: ints in [-4,3], ':', slices with start/stop in {None,-5..5} and step in "
         "{None,1,2,-1,-2}, scalar tensor indices (i, i+1:i+2, i:i+j) and 1-D tensor indices; each expression is translated once "
